@@ -253,6 +253,13 @@ def analyse_batch(job):
                                 sig = f"reaching-definition-missed:phase{phase}:definition-outside-any-loop"
                             else:
                                 sig = f"reaching-definition-missed:phase{phase}:definition-in-loop"
+                                # The open finding is "the bounded number of rounds is used up before a loop-body definition has
+                                # propagated". It explains a miss only where the bound was actually reached: calibrated on the healthy
+                                # tree, in every method with such a miss some statement had been analysed ROUNDS_REACHED times in that
+                                # phase. A miss in a method whose statements were all analysed fewer times has another cause.
+                                maxv = max([fr[x]["visits"] for x in own if x in fr] or [0])
+                                if maxv < ROUNDS_REACHED[(phase, bool(enable_p2))]:
+                                    sig += ":round-budget-not-reached"
                             if sig not in reported:
                                 reported.add(sig)
                                 res["fails"].append((sig, f"{lang} stmt {s} ({op}) read {nm} last defined at {dstmt} ({dop}) in a real execution, "
@@ -264,6 +271,10 @@ def analyse_batch(job):
     for d in (src_dir, ws, os.path.join(sc, f"c06st_{tag}")):
         shutil.rmtree(d, ignore_errors=True)
     return res
+
+
+# visits of the most-analysed statement of a method in which the healthy tree misses a loop-body definition, per (phase, --enable-p2)
+ROUNDS_REACHED = {(2, True): 2, (2, False): 2, (3, True): 2, (3, False): 3}
 
 
 def redeclared_between(trace, row_by_id, dstmt, use_stmt, name):
